@@ -60,7 +60,7 @@ def _op(draw):
 
 @st.composite
 def _case(draw, maxlen):
-    return {"roots": draw(st.sampled_from([1, 2, 2, 3])), "ops": draw(st.lists(_op(), min_size=6, max_size=maxlen))}
+    return {"roots": draw(st.sampled_from([1, 2, 2, 3])), "ops": draw(st.lists(_op(), min_size=6, max_size=maxlen)), "shared_dict": draw(st.booleans())}
 
 
 def strategy(tier):
@@ -116,6 +116,9 @@ def check(case) -> Result:
             continue
         streams.append([DS(typed), DS(typed), {}, None, []])
     n_qmd = 0
+    shared = {}
+    if case.get("shared_dict"):
+        r.labels.append("one-dict-object-re-used")
     branch = False
     children = {}
     interesting_path = False
@@ -137,7 +140,15 @@ def check(case) -> Result:
         kind = op["op"]
         try:
             if kind == "qmd":
-                nreal = real.QMetaData(dict(op["d"]))
+                # the caller may re-use ONE dict object for all its calls, updating it in between (what was set is what it held
+                # at the call)
+                if case.get("shared_dict"):
+                    shared.clear()
+                    shared.update(op["d"])
+                    nreal = real.QMetaData(shared)
+                    shared["zz"] = "added after the call"
+                else:
+                    nreal = real.QMetaData(dict(op["d"]))
                 ntwin = twin
                 nmodel = dict(model)
                 nmodel.update(op["d"])
